@@ -414,9 +414,50 @@ def tree_crossover_generations(h: Harness, rng):
                 pool = pool[-8:]
 
 
+def foreign_length_parents(h: Harness, rng):
+    """parents whose genome length is not the `gene_length` of the representation object that varies them (a warm start from a run with
+    another genome length; two stack parents of different lengths): every gene of a child still comes from a parent AT THE SAME LOCUS,
+    and a mutant of a genotype the operator can mutate has the parent's length and differs from it in at most one gene"""
+    from linear import GE, Stack, safe
+    from props import steps_common as sc
+    from geneticengine.grammar.grammar import extract_grammar
+    from geneticengine.random.sources import NativeRandomSource
+    g = extract_grammar([sc.Leaf, sc.Node], sc.Root)
+    for trial in range(h.n(40, 300)):
+        r = NativeRandomSource(rng.randrange(10**6))
+        la, lb = rng.choice([(300, 420), (420, 300), (256, 512), (700, 260), (300, 300)])
+        sa, sb = Stack(g, gene_length=la), Stack(g, gene_length=lb)
+        p1, p2 = sa.create_genotype(r), sb.create_genotype(r)
+        st, kids = safe(lambda: sa.crossover(r, p1, p2))
+        h.count("foreign-length:stack-crossover")
+        h.seen(f"foreign-length:stack:{la}:{lb}:{trial}", nontrivial=la != lb)
+        if st == "ok":
+            for which, c in enumerate(kids):
+                bad = [i for i, x in enumerate(c.dna) if not ((i < la and p1.dna[i] == x) or (i < lb and p2.dna[i] == x))]
+                if bad or len(c.dna) not in (la, lb):
+                    h.fail("Stack.crossover", "gene-not-from-parents-at-locus",
+                           f"stack parents of {la} and {lb} genes: child {which + 1} has {len(c.dna)} genes, {len(bad)} of them (first at locus "
+                           f"{bad[0] if bad else '-'}) are carried by neither parent at that locus", [la, lb, trial])
+                    break
+        # GE: a genotype LONGER than the mutating object's genome (the operator writes one locus of its own range)
+        gl, pl = rng.choice([(16, 32), (24, 64), (32, 33), (16, 16)])
+        ge_small = GE(g, synth.make_decider("grow", 4, r, g), gene_length=gl)
+        ge_big = GE(g, synth.make_decider("grow", 4, r, g), gene_length=pl)
+        parent = ge_big.create_genotype(r)
+        st, m = safe(lambda: ge_small.mutate(r, parent))
+        h.count("foreign-length:ge-mutate")
+        if st == "ok":
+            diff = sum(1 for a, b_ in zip(parent.dna, m.dna) if a != b_)
+            if len(m.dna) != len(parent.dna) or diff > 1:
+                h.fail("GE.mutate", "mutation-not-local",
+                       f"a GE genotype of {pl} genes mutated by a representation object with gene_length={gl}: the mutant has {len(m.dna)} genes and differs "
+                       f"from its parent at {diff} loci", [gl, pl, trial])
+
+
 def run(h: Harness):
     tree_crossover_generations(h, h.rng)
     linear_ops(h, h.rng)
+    foreign_length_parents(h, h.rng)
     mutation_step_ops(h, h.rng)
     crossover_step_ops(h, h.rng)
     structured_ops(h, h.rng)
